@@ -363,3 +363,35 @@ DOMAINS = {
     'pairs': {0: ['.', 'r', 'EAS139:136:FC706VJ:2:2104:23462:1'], 1: _ID, 2: _COORD, 3: _ID, 4: _COORD, 5: ['+', '-'],
               6: ['+', '-']},
 }
+
+
+class Bam(Format):
+    """BAM records produced by the independent spec-level encoder (models/bam_spec.py).  `render` gives the
+    UNCOMPRESSED BAM stream; readers get it through a gzip file object (a single gzip member is a valid container
+    for bionumpy's reader, see C16)."""
+    name = 'bam'
+    buffer = 'bionumpy.io.bam:BamBuffer'
+    fields = ('chromosome', 'name', 'flag', 'position', 'mapq', 'cigar_op', 'cigar_length', 'sequence', 'quality')
+    kinds = ('id', 'id', 'int', 'int', 'int', 'enc', 'intlist', 'enc', 'intlist')
+    refs = [('chr1', 1000), ('chr2', 500)]
+    gzip_container = True
+    _menu = [dict(ref_id=0, pos=5, mapq=60, flag=0, name='r{i}', cigar=[('M', 3)], seq='ACG', qual=[30, 31, 32]),
+             dict(ref_id=1, pos=70, mapq=0, flag=16, name='read_number_{i}', cigar=[('S', 1), ('M', 2), ('I', 1)], seq='TTAG',
+                  qual=[1, 2, 3, 4]),
+             dict(ref_id=0, pos=9, mapq=255, flag=99, name='q', cigar=[('M', 5)], seq='ACGTN', qual=[40, 40, 40, 40, 40])]
+
+    def record(self, variant, i):
+        from models import bam_spec as S
+        kw = dict(self._menu[variant % 3])
+        kw['name'] = kw['name'].replace('{i}', str(i))
+        rec = S.make_record(**kw)
+        row = S.expected_row(rec, self.refs)
+        exp = tuple(tuple(row[f]) if isinstance(row[f], list) else row[f] for f in self.fields)
+        return Rec([S.encode_record(rec)], exp, rec)
+
+    def render(self, recs, eol=LF, final_newline=True, header=None, comment_after=()):
+        from models import bam_spec as S
+        return S.encode_header(self.refs, '@HD\tVN:1.6\n') + b''.join(r.lines[0] for r in recs)
+
+
+FORMATS['bam'] = Bam()
